@@ -263,3 +263,27 @@ func lemmaBackoffMono(T, i, j int) {
 //@   callsite (*Client).SendAndRead assert[matcher] closureOf(arg4, "IsMessageType$1") && int(captured(arg4, "IsMessageType$1", "t")) == 2 && len(captured(arg4, "IsMessageType$1", "tt")) == 0
 //@   ensures[offer] err == nil ==> offer == sarResp() && sarDone() && specMatch(sarMatch(), offer)
 //@   ensures[failed] !sarDone() ==> offer == nil && err != nil
+
+// ---------- configuration (property C12: the *configured* schedule) ----------
+// A caller's option is modelled as a function that writes arbitrary values, a function of the option alone, into the
+// client's try count and timeout and may fail (userRetry / userTimeout / userFails are abstract). The constructor,
+// verified with the option loop unrolled for one option, must hand back a client that still has exactly those values.
+//@ contract userRetry
+//@   trusted
+func userRetry(z int) int { return 0 }
+
+//@ contract userTimeout
+//@   trusted
+func userTimeout(z int) int { return 0 }
+
+//@ contract type ClientOpt
+//@   trusted
+//@   modifies arg0
+//@   ensures arg0.retry == userRetry(0) && int(arg0.timeout) == userTimeout(0) && arg0.conn == old(arg0.conn) && arg0.pending == old(arg0.pending) && arg0.done == old(arg0.done) && arg0.ifaceHWAddr == old(arg0.ifaceHWAddr)
+
+// (with a connection given: the raw-socket path of the constructor is the operating system's business)
+//@ contract new
+//@   unroll 2
+//@   requires conn != nil && ifaceHWAddr != nil && len(opts) <= 1 && (len(opts) == 1 ==> opts[0] != nil)
+//@   ensures[defaults] result1 == nil && len(opts) == 0 ==> result0 != nil && result0.retry == 3 && int(result0.timeout) == 5000000000
+//@   ensures[local-options-last] result1 == nil && len(opts) == 1 ==> result0 != nil && result0.retry == userRetry(0) && int(result0.timeout) == userTimeout(0)
